@@ -819,7 +819,13 @@ func (vfs *MemFS) removeAll(parent *dirNode) error {
 	parent.mu.Lock()
 	defer parent.mu.Unlock()
 
-	if ok := parent.checkPermission(avfs.OpenWrite, vfs.User()); !ok {
+	if len(parent.children) == 0 {
+		// nothing to remove : no permission is needed on an empty directory.
+		return nil
+	}
+
+	// the entries are listed then removed : read, write and search permissions are needed.
+	if ok := parent.checkPermission(avfs.OpenRead|avfs.OpenWrite|avfs.OpenLookup, vfs.User()); !ok {
 		return vfs.err.PermDenied
 	}
 
